@@ -54,10 +54,10 @@ def run(tier, seed, model_ok, spec_ok, replay=None):
         ok = True
         for k, (rt, rb) in enumerate(zip(roots, roots_b)):
             target = S if k % 2 == 0 else S2      # the same T into different schemas, under different roots
-            try:
-                target.add_schema(Tm, rb)
-            except Exception as e:
-                viol.append({"kind": "direct", "what": f"add_schema raised {type(e).__name__}", "root": rt.descr()[:200]})
+            out = E.run_outcome(lambda: target.add_schema(Tm, rb), limit=5.0)
+            if out[0] == "exc":
+                viol.append({"kind": "direct", "what": f"add_schema raised {out[1]}", "S": [r.descr()[:150] for r in s_terms],
+                             "T": [r.descr()[:150] for r in t_terms], "root": rt.descr()[:200], "step": k})
                 ok = False
                 break
             dist["additions"] += 1
